@@ -249,6 +249,42 @@ where F: Frame, F::Sample: Flt, D: Detect<F>, <D::Output as Frame>::Sample: Flt 
     v
 }
 
+/// a source whose `is_exhausted()` report is independent of what it yields
+struct Reporting<F> { frames: Vec<F>, pos: usize, report_from: usize }
+impl<F: Frame> Signal for Reporting<F> {
+    type Frame = F;
+    fn next(&mut self) -> F { let f = if self.pos < self.frames.len() { self.frames[self.pos] } else { F::EQUILIBRIUM }; self.pos += 1; f }
+    fn is_exhausted(&self) -> bool { self.pos >= self.report_from }
+}
+
+/// the same history through the adaptor over a source that reports exhaustion from frame `rep` on while it keeps
+/// yielding frames, with a HAND-OVER after `h` operations: `into_parts()` and on with the bare detector and source.
+/// Returns the outputs and whether the source was handed back right after the frames pulled.
+fn drive_handover<F, D>(det: Detector<F, D>, ops: &[EOp], h: usize, rep: usize) -> (Vec<String>, bool)
+where F: Frame, F::Sample: Flt, D: Detect<F>, <D::Output as Frame>::Sample: Flt {
+    let frames: Vec<F> = ops.iter().filter_map(|op| if let EOp::Next(raw) = op { Some(F::from_fn(|i| <F::Sample as Flt>::from_b(raw[i]))) } else { None }).collect();
+    let mut s = Reporting { frames, pos: 0, report_from: rep }.detect_envelope(det);
+    let mut v = Vec::new();
+    let mut pulled = 0usize;
+    for op in &ops[..h] {
+        match op {
+            EOp::Next(_) => { v.push(frame_tok(s.next())); pulled += 1; }
+            EOp::Attack(x) => { s.set_attack_frames(*x); v.push("-".into()); }
+            EOp::Release(x) => { s.set_release_frames(*x); v.push("-".into()); }
+        }
+    }
+    let (mut src, mut det) = s.into_parts();
+    let pos_ok = src.pos == pulled;
+    for op in &ops[h..] {
+        match op {
+            EOp::Next(_) => { let f = src.next(); v.push(frame_tok(det.next(f))); }
+            EOp::Attack(x) => { det.set_attack_frames(*x); v.push("-".into()); }
+            EOp::Release(x) => { det.set_release_frames(*x); v.push("-".into()); }
+        }
+    }
+    (v, pos_ok)
+}
+
 fn with_det<F>(det: Det, a: f32, r: f32, ops: &[EOp], sig: Option<usize>) -> Option<Vec<(String, Option<Vec<f64>>)>>
 where F: Frame + 'static, F::Sample: Flt, <F::Signed as Frame>::Sample: Flt, <F::Float as Frame>::Sample: Flt {
     guarded(|| match (det, sig) {
@@ -260,6 +296,16 @@ where F: Frame + 'static, F::Sample: Flt, <F::Signed as Frame>::Sample: Flt, <F:
         (Det::Ph, Some(x)) => drive_sig(Detector::<F, _>::peak_positive_half_wave(a, r), ops, x),
         (Det::Nh, Some(x)) => drive_sig(Detector::<F, _>::peak_negative_half_wave(a, r), ops, x),
         (Det::Rms(n), Some(x)) => drive_sig(Detector::<F, Rms<F, Vec<F::Float>>>::rms(Fixed::from(vec![F::Float::EQUILIBRIUM; n]), a, r), ops, x),
+    })
+}
+
+fn with_handover<F>(det: Det, a: f32, r: f32, ops: &[EOp], h: usize, rep: usize) -> Option<(Vec<String>, bool)>
+where F: Frame + 'static, F::Sample: Flt, <F::Signed as Frame>::Sample: Flt, <F::Float as Frame>::Sample: Flt {
+    guarded(|| match det {
+        Det::Fw => drive_handover(Detector::<F, _>::peak(a, r), ops, h, rep),
+        Det::Ph => drive_handover(Detector::<F, _>::peak_positive_half_wave(a, r), ops, h, rep),
+        Det::Nh => drive_handover(Detector::<F, _>::peak_negative_half_wave(a, r), ops, h, rep),
+        Det::Rms(n) => drive_handover(Detector::<F, Rms<F, Vec<F::Float>>>::rms(Fixed::from_raw_parts(ops.len() % n.max(1), vec![F::Float::EQUILIBRIUM; n]), a, r), ops, h, rep),
     })
 }
 
@@ -413,6 +459,18 @@ where F: Frame + 'static, F::Sample: Flt, <F::Signed as Frame>::Sample: Flt, <F:
                 if same { st.oracle_ok(direct.len() as u64); } else { st.oracle_fail("detect_envelope output differs from the detector fed the same frames", &req, &direct.iter().map(|t| t.0.clone()).collect::<Vec<_>>().join(" "), &outs.iter().map(|t| t.0.clone()).collect::<Vec<_>>().join(" ")); }
                 let p = outs.last().map(|t| t.0.clone()).unwrap_or_default();
                 if p == format!("p{}", nexts + extra) { st.oracle_ok(1); } else { st.oracle_fail("detect_envelope did not pull exactly one source frame per output", &req, &format!("p{}", nexts + extra), &p); }
+                // hand-over at every kind of point (right after a setter, before the first frame, at the end), over a source
+                // that reports exhaustion while it still yields frames: into_parts() and on with the bare detector
+                let h = (nexts * 5 + changes * 3 + extra) % (ops.len() + 1);
+                let rep = (nexts * 3 + extra) % (nexts + 2);
+                st.count(if h > 0 && !matches!(ops[h - 1], EOp::Next(_)) { "hand-over right after a setter" } else if h == 0 { "hand-over before the first frame" } else { "hand-over after a frame" });
+                match with_handover::<F>(det, a, r, &ops, h, rep) {
+                    None => st.oracle_fail("adaptor / into_parts panicked", &req, "no panic", "panic"),
+                    Some((v, pos_ok)) => {
+                        let same = v.len() == ops.len() && v.iter().zip(direct.iter()).all(|(x, y)| *x == y.0);
+                        if same && pos_ok { st.oracle_ok(v.len() as u64 + 1); } else { st.oracle_fail(&format!("detect_envelope over a source reporting exhaustion from frame {} on, into_parts() after {} operations, then the bare detector: outputs / source position differ from the detector fed the same frames", rep, h), &req, &direct.iter().map(|t| t.0.clone()).collect::<Vec<_>>().join(" "), &format!("{} (source position ok: {})", v.join(" "), pos_ok)); }
+                    }
+                }
             }
             // changing attack/release affects only subsequent frames: the outputs before the first change equal a run without it
             if !sig && changes > 0 {
